@@ -39,11 +39,11 @@ Definition path_eqb (a b : path) : bool :=
 
 Definition is_tmp (p : path) : bool := match p with PTmp _ => true | _ => false end.
 
-Definition sfs : Type := fs path.
-Definition sop : Type := op path.
-Definition supd : sfs -> path -> option (list N) -> sfs := upd path_eqb.
-Definition srun : list sop -> sfs -> sfs := run_ops path_eqb.
-Definition scrash : nat -> option N -> list sop -> sfs -> sfs := crash_at path_eqb.
+Notation sfs := (fs path).
+Notation sop := (op path).
+Notation supd := (upd path_eqb).
+Notation srun := (run_ops path_eqb).
+Notation scrash := (crash_at path_eqb).
 
 (* ------------------------------------------------------------------ *)
 (* kill-point labels (the names used by the hooks in src/store.rs) *)
